@@ -87,7 +87,10 @@ class C03(Prop):
         "the property's quantifier; other inputs are judged acceptable by the spec",
         "each level is loaded through the public API, file locations are set before the loads, the "
         "environment is read last and once (as documented)",
-        "keys and values ASCII; leaves None/bool/int/str/list/tuple",
+        "keys are ASCII strings (a non-string key makes load_shell_env() raise: known finding F-C03a, "
+        "witnessed by an extra check); leaves None/bool/int/str/list/tuple",
+        "a .py candidate that os.path.exists() denies (missing, dangling or looping link) loads as empty "
+        "(load_source's documented quirk): unopenable candidates are generated for yaml/yml/json only",
     ]
     not_modelled = [
         "the three file parsers (files are an abstract map location x suffix -> data)",
